@@ -74,14 +74,24 @@ def directed_scenario(seed, i):
             b["env"] = {"BADNESS": bad.strip()}
     apps = [{"name": f"a{j}", "sources": [f"a{j}.c"]} for j in range(na)]
     where = rng.choice(["context", "context", "builder", "app"])
+    mixed = rng.random() < 0.5        # the definitions of the task differ in `build:` between the builds (the FIRST one must not decide)
+
+    def variant():
+        t = copy.deepcopy(task)
+        if mixed:
+            t["build"] = rng.random() < 0.5
+        return t
     if where == "context":
         ctx["tasks"] = {"dt": task}
+        if mixed:
+            for b in builders[1:] if rng.random() < 0.5 else builders[:1]:
+                b["tasks"] = {"dt": dict(copy.deepcopy(task), build=not task["build"])}
     elif where == "builder":
         for b in builders:
-            b["tasks"] = {"dt": copy.deepcopy(task)}
+            b["tasks"] = {"dt": variant()}
     else:
         for a in apps:
-            a["tasks"] = {"dt": copy.deepcopy(task)}
+            a["tasks"] = {"dt": variant()}
     p = {"files": {"laze-project.yml": [{"contexts": [ctx], "builders": builders, "apps": apps}]}, "args": {}}
     a = {}
     fl = {}
